@@ -44,18 +44,29 @@ ASSUMPTIONS = [
     "the model's parser is the strict RFC-1123 grammar with case-insensitive names; strptime's extra "
     "leniency (one-digit fields, runs of white space) is outside the property and not generated",
     "a `next` cycle never ends in Python; it is exercised with a transport cut-off = model fuel",
+    "a `timestamps` value is a list of strings in a dict at the top level of the document (what ACN-Data serves); "
+    "non-list / non-string stamps and time series nested deeper are not generated; the sample values next to a "
+    "`timestamps` list are checked by the oracle only (the model sees the stamps)",
 ]
 RULE = ("per case one client call: get_sessions / get_sessions_by_time (count on/off) / count_sessions with random "
         "argument combinations (cond strings incl. '&', '=', quotes, empty; project; sort; timeseries; start/end as "
         "aware datetimes in 16 zones incl. DST-transition instants and microseconds; min_energy int/float) against a "
         "fake server of 0-6 chained pages (empty pages, duplicate-looking sessions, repeated ids, decoy pages, missing "
         "_links, next without href, dangling next, next cycle with cut-off, error documents, non-JSON bodies, "
-        "transport errors, invalid/missing time zones, malformed time-series stamps), or a batch of "
+        "transport errors, invalid/missing time zones; with timeseries (and 15% of the other documents) 1-4 "
+        "`timestamps`-bearing fields per document, each of 0-12 samples on a regular / irregular / unordered clock "
+        "with steps of 1 s - 1 h, 15% moved so that a zone transition falls inside the series; a further series "
+        "of a document is derived from an earlier one: identical, same length and same first and last stamp but "
+        "different (or malformed) interior, constant lag, sub-sampled, common prefix / suffix, one shared end, "
+        "reversed, shuffled, every sample twice, empty, or unrelated; 12% of the documents of a server reuse the "
+        "series of an earlier document (under their own zone, half of them with one series changed inside); "
+        "independently malformed stamps), or a batch of "
         "http_date/parse_http_date round trips and malformed date strings, or a sweep of the calendar model against "
         "datetime.date (quick: both ends of the datetime range + random 20 000-day windows; thorough: every day of "
         "years 1-9999); non-trivial = at least two pages or an "
         "empty page or a fault on the chain, or a by_time call with a bound, or a date batch touching a DST "
-        "transition; distinct by hash of the case")
+        "transition; the evidence histogram reports per document the number of series, their lengths and the "
+        "relation of every pair of series (series-pair:*); distinct by hash of the case")
 
 BASE = "https://ev.caltech.edu/api/v1/"
 SITES = ["caltech", "jpl", "office001"]
@@ -149,7 +160,113 @@ def _gen_instant(rng, zone=None):
                        T_MIN + 2 * DAY, 68169600 - 1, 2 ** 31 - 1, 2 ** 31, 1e9, 915148800 - 1, 978307200 - 1])
 
 
-def _gen_doc(rng, k, timeseries):
+SERIES_FIELDS = ["chargingCurrent", "pilotSignal", "voltage", "power"]
+SERIES_VALUE_KEY = {"chargingCurrent": "current", "pilotSignal": "pilot", "voltage": "volts", "power": "kW"}
+# how the stamps of a further series of the same document relate to those of an earlier one
+RELATIONS = (["same"] * 5 + ["inner"] * 5 + ["inner-bad"] + ["lag"] * 2 + ["sub"] * 2 + ["prefix", "suffix", "first-only",
+             "last-only", "reversed", "shuffled", "dup", "fresh", "fresh", "empty"])
+
+
+def _bad_stamp(rng, good):
+    return rng.choice(["", "2020-01-01 00:00:00", good[:-4], good.replace("GMT", "UTC")])
+
+
+def _gen_epochs(rng, t0, zone):
+    """Sample instants of one time series: regular or irregular clocks, 0-12 samples, steps from seconds to
+    hours (so that a series can straddle a zone transition), sometimes repeated or out-of-order samples."""
+    n = rng.choice([0, 1, 1, 2, 2, 3, 3, 3, 4, 4, 5, 6, 8, 12])
+    step = rng.choice([10, 10, 1, 60, 300, 300, 1800, 3600])
+    start = t0 + rng.choice([0, 0, 0, 1, 37, -step])
+    mode = rng.random()
+    if mode < 0.55:
+        ep = [start + step * i for i in range(n)]
+    elif mode < 0.9:
+        ep, t = [], start
+        for _ in range(n):
+            ep.append(t)
+            t += rng.choice([0, 1, 1, step, step, step + 7, 3 * step, rng.randint(1, 4000)])
+    else:
+        ep = [start + rng.randint(0, max(1, step * n)) for _ in range(n)]     # unordered
+    if zone and known_zone(zone) and n >= 2 and rng.random() < 0.15:
+        # put a transition of the zone strictly inside the series
+        tr = [t for t, _ in zone_table(zone)["trans"] if T_MIN + 10 * DAY < t < T_MAX - 800 * DAY]
+        if tr:
+            shift = rng.choice(tr) - ep[rng.randrange(1, n)] + rng.choice([0, 0, -1, 1])
+            ep = [e + shift for e in ep]
+    return ep
+
+
+def _derive_stamps(rng, stamps, t0, rel):
+    """Stamps of another series of the same document, related to `stamps` by `rel`.  The relations cover
+    what a per-document or per-process shortcut could confuse: equal lists, lists that agree in length and
+    at both ends but not inside, a constant lag, sub-sampling, a common prefix/suffix, a different order."""
+    n = len(stamps)
+    ep = [epoch_of_rfc(x) for x in stamps]
+    if any(e is None for e in ep):
+        return list(stamps)
+    if rel == "same":
+        return list(stamps)
+    if rel in ("inner", "inner-bad"):
+        if n < 3:
+            return [rfc(e + 3) for e in ep] if rel == "inner" else list(stamps)
+        out = list(ep)
+        idx = [i for i in range(1, n - 1) if rng.random() < 0.5] or [rng.randrange(1, n - 1)]
+        if rel == "inner-bad":
+            res = [rfc(e) for e in out]
+            res[idx[0]] = _bad_stamp(rng, res[idx[0]])
+            return res
+        for i in idx:
+            out[i] += rng.choice([1, -1, 7, 60, -300, 3600, rng.randint(1, 5000), -rng.randint(1, 5000)])
+        return [rfc(e) for e in out]
+    if rel == "lag":
+        lag = rng.choice([1, 4, 60, 3600, 86400])
+        return [rfc(e + lag) for e in ep]
+    if rel == "sub":
+        return [rfc(e) for e in ep[::2]]
+    if rel == "prefix":
+        return [rfc(e) for e in ep[:-1]] + ([rfc(ep[-1] + 5)] if n and rng.random() < 0.5 else [])
+    if rel == "suffix":
+        return ([rfc(ep[0] - 5)] if n and rng.random() < 0.5 else []) + [rfc(e) for e in ep[1:]]
+    if rel == "first-only":
+        return [rfc(ep[0])] + [rfc(e + 11) for e in ep[1:]] if n else []
+    if rel == "last-only":
+        return [rfc(e + 11) for e in ep[:-1]] + [rfc(ep[-1])] if n else []
+    if rel == "reversed":
+        return [rfc(e) for e in reversed(ep)]
+    if rel == "shuffled":
+        out = list(ep)
+        rng.shuffle(out)
+        return [rfc(e) for e in out]
+    if rel == "dup":
+        return [rfc(e) for e in ep for _ in range(2)]
+    if rel == "empty":
+        return []
+    return None     # "fresh": the caller draws an unrelated series
+
+
+def _gen_series_fields(rng, t0, zone):
+    """1-4 `timestamps`-bearing fields of one document.  ACN-Data serves `chargingCurrent` and `pilotSignal`;
+    their clocks are usually the same but need not be (pilot logged on change, a delayed sample)."""
+    k = rng.choice([1, 1, 1, 2, 2, 2, 2, 3, 3, 4])
+    names = SERIES_FIELDS[:k]
+    if rng.random() < 0.2:
+        names = rng.sample(SERIES_FIELDS, k)
+    out = []
+    for name in names:
+        stamps = None
+        if out:
+            stamps = _derive_stamps(rng, rng.choice(out)[1]["timestamps"], t0, rng.choice(RELATIONS))
+        if stamps is None:
+            stamps = [rfc(e) for e in _gen_epochs(rng, t0, zone)]
+        if stamps and rng.random() < 0.025:
+            i = rng.randrange(len(stamps))
+            stamps[i] = _bad_stamp(rng, stamps[i])
+        vals = [rng.choice([0, 1.5, 8, 16.0, 31.99]) for _ in stamps]
+        out.append([name, {SERIES_VALUE_KEY[name]: vals, "timestamps": stamps}])
+    return out
+
+
+def _gen_doc(rng, k, timeseries, pool=None):
     zone = rng.choice(ZONES[:1] * 3 + ZONES)
     t0 = int(_gen_instant(rng, zone))
     t1 = t0 + rng.randint(0, 20 * 3600)
@@ -169,14 +286,19 @@ def _gen_doc(rng, k, timeseries):
         # a string that only looks like a date / other non-date strings
         bad = rng.choice(_malformed(rng, t0))
         doc.append(["note", bad])
-    if timeseries or rng.random() < 0.15:
-        n = rng.randint(0, 4)
-        stamps = [rfc(t0 + 10 * i) for i in range(n)]
-        if rng.random() < 0.04 and n:
-            stamps[rng.randrange(n)] = rng.choice(["", "2020-01-01 00:00:00", stamps[0][:-4], stamps[0].replace("GMT", "UTC")])
-        doc.append(["chargingCurrent", {"current": [1.5] * n, "timestamps": stamps}])
+    if pool is not None and pool and rng.random() < 0.12:
+        # the series of an earlier document again, under this document's zone (and sometimes with one
+        # series changed inside): nothing converted for one document may leak into another
+        fields = [[name, _copy(v)] for name, v in rng.choice(pool)]
         if rng.random() < 0.5:
-            doc.append(["pilotSignal", {"pilot": [8] * n, "timestamps": list(stamps)}])
+            f = rng.choice(fields)
+            f[1]["timestamps"] = _derive_stamps(rng, f[1]["timestamps"], t0, "inner")
+        doc.extend(fields)
+    elif timeseries or rng.random() < 0.15:
+        fields = _gen_series_fields(rng, t0, zone)
+        doc.extend(fields)
+        if pool is not None and fields:
+            pool.append([[name, _copy(v)] for name, v in fields])
         if rng.random() < 0.2:
             doc.append(["meta", {"x": 1}])                             # dict without timestamps
     if rng.random() < 0.3:
@@ -201,6 +323,7 @@ def _gen_pages(rng, timeseries):
     n = rng.choice([0, 1, 1, 2, 2, 3, 3, 4, 5, 6])
     pages = []
     k = 0
+    pool = []          # time series of earlier documents of this server, for reuse across documents
     hrefs = [None] + [rng.choice([f"sessions/caltech?page={i + 1}&max_results=100",
                                   f"sessions/jpl?where=x&page={i + 1}", f"p{i + 1}", f"sessions/caltech/ts/?page={i + 1}"]) + f"#{rng.randint(0, 999)}"
                       for i in range(1, 8)]
@@ -212,7 +335,7 @@ def _gen_pages(rng, timeseries):
         m = rng.choice([0, 0, 1, 1, 2, 3, 5])
         items = []
         for _ in range(m):
-            d = _gen_doc(rng, k, timeseries)
+            d = _gen_doc(rng, k, timeseries, pool)
             k += 1
             items.append(d)
             if rng.random() < 0.15:          # duplicate-looking: same content, new id
@@ -304,7 +427,39 @@ def _gen_dates(rng):
 def corpus():
     d = lambda i, t, z="America/Los_Angeles": [["_id", f"c{i}"], ["connectionTime", rfc(t)], ["disconnectTime", rfc(t + 3600)],
                                                ["doneChargingTime", None], ["timezone", z]]
+    reg = list(range(0, 3600, 300))
+    ser = lambda name, t, offs: [name, {SERIES_VALUE_KEY[name]: [0.5 * (i % 7) for i in range(len(offs))],
+                                        "timestamps": [rfc(t + o) for o in offs]}]
+    on_change = [0, 12, 47, 1290, 1300, 1800, 1805, 2400, 2950, 3000, 3290, 3300]
+    delayed = reg[:5] + [reg[5] + 7] + reg[6:]
+    tA, tB = 1572222660, 1552207500          # 2019-10-28 (plain day), 2019-03-10 08:45Z (US spring forward at 10:00Z)
+    series_case = {
+        # several time series per document whose clocks agree in length and at both ends but not inside
+        # (pilot logged on change, one delayed sample), a third series, a malformed stamp inside a
+        # series that otherwise looks like its neighbour comes last; the same series under two zones
+        "kind": "sessions", "base": BASE, "site": "jpl",
+        "args": {"cond": None, "project": None, "sort": None, "timeseries": True},
+        "pages": [
+            {"kind": "page", "items": [d(0, tA) + [ser("chargingCurrent", tA, reg), ser("pilotSignal", tA, on_change)]],
+             "next": "next", "href": "sessions/jpl/ts/?max_results=1&page=2"},
+            {"kind": "page", "items": [d(1, tB) + [ser("pilotSignal", tB, delayed), ser("chargingCurrent", tB, reg),
+                                                  ser("voltage", tB, reg)]],
+             "next": "next", "href": "sessions/jpl/ts/?max_results=1&page=3"},
+            {"kind": "page", "items": [d(2, tB, "Australia/Lord_Howe") + [ser("chargingCurrent", tB, reg), ser("pilotSignal", tB, delayed)]],
+             "next": "next", "href": "sessions/jpl/ts/?max_results=1&page=4"},
+            {"kind": "page", "items": [d(3, tA, "UTC") + [ser("chargingCurrent", tA, [0, 10, 20]), ser("pilotSignal", tA, [0, 20, 10]),
+                                                         ser("power", tA, [0, 10, 10, 20])]],
+             "next": "last", "href": None}],
+        "cutoff": 7}
+    bad_inside = {
+        "kind": "sessions", "base": BASE, "site": "caltech",
+        "args": {"cond": None, "project": None, "sort": None, "timeseries": True},
+        "pages": [{"kind": "page", "items": [d(0, tA) + [ser("chargingCurrent", tA, [0, 10, 20]),
+                                                        ["pilotSignal", {"pilot": [8, 8, 8], "timestamps": [rfc(tA), rfc(tA + 10)[:-4], rfc(tA + 20)]}]]],
+                   "next": "last", "href": None}],
+        "cutoff": 3}
     return [
+        series_case, bad_inside,
         # three pages, the middle one empty, identical-looking sessions, spring-forward instants
         {"kind": "sessions", "base": BASE, "site": "caltech",
          "args": {"cond": None, "project": None, "sort": None, "timeseries": False},
@@ -487,10 +642,25 @@ def _obs_val(v, extra):
     return {"o": True}
 
 
+def _plain(v):
+    """JSON-able rendering of the sample values that travel next to a `timestamps` list."""
+    if isinstance(v, (list, tuple)):
+        return [_plain(x) for x in v]
+    if isinstance(v, dict):
+        return {str(k): _plain(x) for k, x in v.items()}
+    if v is None or isinstance(v, (bool, int, float, str)):
+        return v
+    return ["object", type(v).__name__]
+
+
 def _obs_doc(doc):
     extra = []
     fields = [[k, _obs_val(v, extra)] for k, v in doc.items()]
-    return {"fields": fields, "zones": sorted(set(str(e[1]) for e in extra)), "us": sorted(set(e[2] for e in extra))}
+    # what else a time-series dict holds (the sample values); not part of the model's view
+    rest = [[k, _plain({a: b for a, b in v.items() if a != "timestamps"})] for k, v in doc.items()
+            if isinstance(v, dict) and "timestamps" in v]
+    return {"fields": fields, "zones": sorted(set(str(e[1]) for e in extra)), "us": sorted(set(e[2] for e in extra)),
+            "series_rest": rest}
 
 
 def _run_calendar(case):
@@ -950,11 +1120,15 @@ def oracle(case, obs):
                 if ov is None or "ts" not in ov or len(ov["ts"]) != len(v["timestamps"]):
                     fails.append({"kind": "timeseries_stamps_lost", "detail": f"session {k} field {key}: {ov}"})
                 else:
-                    for s, g in zip(v["timestamps"], ov["ts"]):
+                    for j, (s, g) in enumerate(zip(v["timestamps"], ov["ts"])):
                         if g and g[0] == "not-a-datetime":
-                            fails.append({"kind": "rfc1123_string_not_parsed", "detail": f"session {k} {key}: stamp {s!r} not converted"})
+                            fails.append({"kind": "rfc1123_string_not_parsed", "detail": f"session {k} {key}: stamp {j} {s!r} not converted"})
                         else:
-                            _check_dt(fails, f"session {k} {key} stamp", s, g, zone)
+                            _check_dt(fails, f"session {k} {key} stamp {j}", s, g, zone)
+                want = _plain({a: b for a, b in v.items() if a != "timestamps"})
+                got = dict((a, b) for a, b in o.get("series_rest", [])).get(key)
+                if got != want:
+                    fails.append({"kind": "field_damaged", "detail": f"session {k} field {key}: sample values {want} became {got}"})
             elif ov != {"o": True}:
                 fails.append({"kind": "field_damaged", "detail": f"session {k} field {key}: {v!r} became {ov}"})
     return fails
@@ -1033,6 +1207,54 @@ def features(case, obs):
                             out.append("offset:zoneinfo-" + ("agrees" if zo == v["d"][1] else "has-newer-data"))
                 elif "ts" in v:
                     out.append("field:timeseries")
+        for p in case["pages"]:
+            for d in p.get("items", []):
+                out.extend(_series_features(d))
+    return out
+
+
+def _series_relation(a, b):
+    """How two `timestamps` lists of one document relate (computed from the case, not from the generator)."""
+    if a == b:
+        return "identical" if a else "both-empty"
+    if not a or not b:
+        return "one-empty"
+    if len(a) == len(b):
+        if a[0] == b[0] and a[-1] == b[-1]:
+            return "same-length-and-ends-differ-inside"
+        if sorted(a) == sorted(b):
+            return "same-stamps-other-order"
+        if a[0] == b[0] or a[-1] == b[-1]:
+            return "same-length-one-end-shared"
+        return "same-length-differ"
+    if set(a) <= set(b) or set(b) <= set(a):
+        return "sub-series"
+    return "different-length"
+
+
+def _series_features(d):
+    out = []
+    ser = [v["timestamps"] for _, v in d if isinstance(v, dict) and "timestamps" in v]
+    if not ser:
+        return out
+    zone = dict(d).get("timezone")
+    out.append(f"series:fields:{len(ser)}")
+    for a in ser:
+        n = len(a)
+        out.append("series:len:" + (str(n) if n < 3 else "3-5" if n <= 5 else "6+"))
+        ep = [epoch_of_rfc(x) for x in a]
+        if any(e is None for e in ep):
+            out.append("series:malformed-stamp")
+            continue
+        if len(set(ep)) < n:
+            out.append("series:repeated-stamp")
+        if ep != sorted(ep):
+            out.append("series:not-ascending")
+        if n >= 2 and known_zone(zone) and len({_table_offset(zone, e) for e in ep}) > 1:
+            out.append("series:straddles-zone-transition")
+    for i in range(len(ser)):
+        for j in range(i + 1, len(ser)):
+            out.append("series-pair:" + _series_relation(ser[i], ser[j]))
     return out
 
 
@@ -1068,6 +1290,21 @@ def shrink(case, kind):
                 if fails(c):
                     best = c
                     changed = True
+                    break
+            if changed:
+                break
+            # drop whole fields of a document (time series first) while the failure persists
+            for ii, d in enumerate(p["items"]):
+                for fi, (name, v) in enumerate(d):
+                    if name in ("_id", "timezone"):
+                        continue
+                    c = copy.deepcopy(best)
+                    del c["pages"][pi]["items"][ii][fi]
+                    if fails(c):
+                        best = c
+                        changed = True
+                        break
+                if changed:
                     break
             if changed:
                 break
